@@ -806,7 +806,7 @@ class Interp:
 
     # ---------------------------------------------------------------- loops
     def st_While(self, s, env):
-        lid = self.loop_ids[id(s)]
+        lid = self.loop_ids.get(id(s), -1)  # -1: a loop of an inlined helper (no LoopSpec: unrolled)
         if lid in self.loops:
             return self._cut_loop(s, env, lid, None)
         # no invariant: unroll while the condition is concrete
@@ -829,7 +829,7 @@ class Interp:
         self.exec_block(s.orelse, env)
 
     def st_For(self, s, env):
-        lid = self.loop_ids[id(s)]
+        lid = self.loop_ids.get(id(s), -1)
         it = self.eval(s.iter, env)
         if lid in self.loops:
             return self._cut_loop(s, env, lid, it)
@@ -2016,6 +2016,17 @@ def _b_type(interp, args, kwargs, node):
     raise Unsupported("type() of symbolic value", node)
 
 
+def _b_next(interp, args, kwargs, node):
+    it = args[0]
+    if isinstance(it, (list, tuple)):  # generator expressions are evaluated eagerly into lists
+        if it:
+            return it[0]
+        if len(args) > 1:
+            return args[1]
+        raise PyRaise(ExcVal("StopIteration", origin=f"next@{node.lineno}"))
+    raise Unsupported("next() of a symbolic iterator", node)
+
+
 def _b_min(interp, args, kwargs, node):
     if len(args) == 2:
         a, b = lift(args[0]), lift(args[1])
@@ -2036,7 +2047,7 @@ BUILTINS = {
         len=_b_len, range=_b_range, isinstance=_b_isinstance, str=_b_str, bool=_b_bool, list=_b_list, tuple=_b_tuple,
         set=_b_set, dict=_b_dict, enumerate=_b_enumerate, zip=_b_zip, all=_b_all, any=_b_any, sorted=_b_sorted,
         getattr=_b_getattr, hasattr=_b_hasattr, setattr=_b_setattr, delattr=_b_delattr, int=_b_int, type=_b_type,
-        min=_b_min, max=_b_max,
+        min=_b_min, max=_b_max, next=_b_next,
     ).items()
 }
 
